@@ -27,6 +27,10 @@ type Config struct {
 	SyncPeers int
 	MaxSteps  int
 	Burst     bool
+	KVFault   bool // graph database write failures are injected under deliveries
+	SQL       bool // graph store on sqlite instead of bbolt
+	// BanThreshold: 100 is the daemon default; 4 lets a run reach the ban.
+	BanThreshold uint64
 	// weights of the step kinds
 	WCA, WCU, WNA, WDup, WTime, WBlock, WTrickle, WFilter, WBurst int
 	// one in CorruptDen deliveries is corrupted at wire level, one in
@@ -35,6 +39,12 @@ type Config struct {
 }
 
 // DrawConfig draws the swarm configuration.
+var forceSQL = os.Getenv("GOSSIPSIM_SQL") != ""
+
+// noConcurrent maps the concurrent arm onto the sequential one (used by the
+// determinism self-test, which compares trace hashes exactly).
+var noConcurrent = os.Getenv("GOSSIPSIM_NO_CONCURRENT") != ""
+
 func DrawConfig(t *simcore.Tape, thorough bool) Config {
 	c := Config{
 		Nodes:      3 + t.CfgDraw(3),
@@ -53,12 +63,27 @@ func DrawConfig(t *simcore.Tape, thorough bool) Config {
 		VariantDen: []int{3, 5, 8}[t.CfgDraw(3)],
 	}
 	c.SyncPeers = 1 + t.CfgDraw(c.Peers)
-	if t.CfgDraw(4) == 3 {
+	switch a := t.CfgDraw(16); {
+	case a >= 9 && a <= 12:
 		c.Burst = true
+	case a == 13 || a == 14:
+		c.KVFault = true
+	case a == 15:
+		c.SQL = true
+		c.Burst = t.CfgDraw(2) == 1
+	}
+	if noConcurrent {
+		c.Burst = false
+	}
+	if c.Burst {
 		c.WBurst = 6
 	}
+	c.BanThreshold = []uint64{100, 100, 4}[t.CfgDraw(3)]
 	if thorough {
 		c.MaxSteps *= 2
+	}
+	if forceSQL {
+		c.SQL = true
 	}
 	return c
 }
@@ -85,6 +110,9 @@ type Sim struct {
 	lastTs   map[string]uint32 // highest timestamp generated per key
 	applied  int
 	spends   int
+	dbFaults int
+	selfloop bool // a channel with node_id_1 == node_id_2 has been in the graph
+	curWires map[string]bool // messages delivered in the current step
 	rejected int
 	corrupt  int
 	step     int
@@ -109,10 +137,18 @@ func cleanErr(err error) string {
 // again on the caller's goroutine.
 func Run(t *testing.T, r *simcore.Run, thorough bool) {
 	cfg := DrawConfig(r.Tape, thorough)
-	if cfg.Burst {
-		r.Arm = "burst"
-	} else {
+	switch {
+	case cfg.Burst:
+		r.Arm = "concurrent"
+	case cfg.KVFault:
+		r.Arm = "sequential+db-write-failures"
+	default:
 		r.Arm = "sequential"
+	}
+	if cfg.SQL {
+		r.Arm = "sqlite/" + r.Arm
+	} else {
+		r.Arm = "bbolt/" + r.Arm
 	}
 	var carried interface{}
 	var foreign string
@@ -285,13 +321,14 @@ func (s *Sim) run() {
 	r := s.r
 	chain := s.buildUniverse()
 	self := newNode(100)
-	s.w = NewWorld(r, chain, self, s.cfg.Peers, s.cfg.SyncPeers)
+	s.w = NewWorld(r, chain, self, s.cfg.Peers, s.cfg.SyncPeers, s.cfg.SQL, s.cfg.BanThreshold)
 	logf(r, "config: %+v", s.cfg)
 	s.proj = s.w.readProjection()
 	s.w.drain()
 
 	for s.step < s.cfg.MaxSteps && r.Step() {
 		s.step++
+		s.curWires = map[string]bool{}
 		wca := s.cfg.WCA
 		if s.missingGood() {
 			wca *= 4
@@ -347,7 +384,7 @@ func (s *Sim) run() {
 			r.Count("burst_steps")
 			what = fmt.Sprintf("after a burst of %d messages", len(ds))
 		case "time":
-			d := []time.Duration{time.Second, 61 * time.Second, 11 * time.Minute, 25 * time.Hour, 15 * 24 * time.Hour}[r.Draw(5)]
+			d := []time.Duration{time.Second, 61 * time.Second, 11 * time.Minute, 25 * time.Hour}[r.Draw(4)]
 			r.Kind("time:" + d.String())
 			logf(r, "#%d clock +%v", s.step, d)
 			time.Sleep(d)
@@ -368,10 +405,12 @@ func (s *Sim) run() {
 		s.check(what)
 	}
 
+	s.curWires = map[string]bool{}
 	// Flush: let every batched broadcast leave the node and judge it too.
 	time.Sleep(2 * trickleDelay)
 	s.w.settle()
 	s.check("at wind-down")
+	logf(r, "final graph: %s", s.proj.summary())
 	for _, p := range s.w.peers {
 		if p.dropped {
 			r.Count("probe_peer_disconnected_by_ban")
@@ -527,6 +566,7 @@ func (s *Sim) send(w []byte, label string) *pending {
 					return nil
 				}
 				s.futurePending[id] = scid.BlockHeight
+				r.Count("probe_future_height_msg_buffered")
 			} else if dir >= 0 && s.proj.chans[id] == nil {
 				bufKey = fmt.Sprintf("%d/%d", id, dir)
 				if s.prematurePending[bufKey] {
@@ -548,6 +588,7 @@ func (s *Sim) send(w []byte, label string) *pending {
 		p = cands[r.Draw(len(cands))]
 	}
 	s.remember(w, label)
+	s.curWires[string(w)] = true
 	logf(r, "#%d %s delivers [%s]", s.step, p.name, label)
 	r.Count("delivered")
 	return &pending{d: s.w.Deliver(p, msg), label: label, peer: p.name, bufKey: bufKey}
@@ -575,12 +616,31 @@ func (s *Sim) report(p *pending) {
 }
 
 func (s *Sim) deliverOne(w []byte, label string) string {
+	r := s.r
+	armed := false
+	if s.cfg.KVFault && r.Chance(1, 5) {
+		// the next one or two write transactions of the graph database
+		// fail (disk full); the batch layer retries a failed batch once
+		// per request, so two in a row make the operation itself fail
+		n := 1 + r.Draw(2)
+		s.w.failWrites(n)
+		armed = true
+	}
 	p := s.send(w, label)
 	s.w.settle()
 	if p != nil {
 		s.report(p)
 	}
-	return "after delivery of [" + label + "]"
+	what := "after delivery of [" + label + "]"
+	if armed {
+		if fired := s.w.stopFailing(); fired > 0 {
+			logf(r, "  (%d graph database write(s) failed with an injected I/O error)", fired)
+			r.Add("fault_db_write_failed", int64(fired))
+			s.dbFaults += fired
+			what += fmt.Sprintf(" with %d failed database write(s)", fired)
+		}
+	}
+	return what
 }
 
 // remember records a delivered message and whether it is fresh against the
@@ -680,7 +740,13 @@ func (s *Sim) genMessage(kind string) ([]byte, string) {
 		sp := u.baseCA(c)
 		label = fmt.Sprintf("CA chan%d", c.idx)
 		if r.Chance(1, s.cfg.VariantDen) {
-			switch r.Draw(9) {
+			switch r.Draw(10) {
+			case 9:
+				// one signature made by the key stated for another slot
+				k := r.Draw(4)
+				j := (k + 1 + r.Draw(3)) % 4
+				sp.signers[k] = sp.signers[j]
+				label += fmt.Sprintf(" signature %d made by the key of slot %d", k, j)
 			case 0:
 				sp.signers[1] = u.stranger.priv
 				label += " node-sig-2 by stranger"
